@@ -367,9 +367,10 @@ def g_lle_wrapper():
                     out.append(x)
                 return C.array(E, out)
         C.setg(lle.LLECache, 'load', SLLE)
-        feed, ff = mk(E, 'f', [1, E.choice(2, 'ethanol?'), 1, 0])
-        top, _ = outlet(E, 't', False)
-        bot, _ = outlet(E, 'b', False)
+        # real property package on these streams: the wrapper builds its LLE object from the feed's package
+        feed, ff = S.mk_stream(E, 'f', th, 'l', presence=[1, E.choice(2, 'ethanol?'), 1, 0])
+        top, _ = S.mk_stream(E, 't', th, 'l', presence=[0] * N)
+        bot, _ = S.mk_stream(E, 'b', th, 'l', presence=[0] * N)
         eff = E.real('efficiency', lo=0, hi=1, nice=(0.2, 0.95))
         use_ms = E.choice(2, 'multi_stream-given')
         ms = tmo.MultiStream(None, thermo=th, phases='lL') if use_ms else None
